@@ -29,7 +29,8 @@ use std::collections::hash_map::DefaultHasher;
 use std::collections::HashSet;
 // verification hook: solver-friendly set/map stand-ins of the harness crate (see /verif/DESIGN.md §9)
 #[cfg(pytest_language_server_verif)]
-use crate::verif_collections::HashSet;
+#[allow(unused_imports)]
+use crate::verif_collections::*;
 use std::hash::{Hash, Hasher};
 use std::path::{Path, PathBuf};
 use std::sync::Arc;
